@@ -41,6 +41,7 @@ type Harness struct {
 	NoMono     bool
 	Conc       bool
 	Workers    int
+	RunTier    string
 	confirmed  sync.Map
 	Doc        string
 	Opts       map[string]string
@@ -316,15 +317,15 @@ func runHarness(cfg *Config, ld *Loaded, h *Harness, known []*Finding) (res *Har
 			defer wg.Done()
 			part := &HarnessResult{H: h, Obls: map[string]*OblStat{}, Reaches: map[string]int{}, Funcs: map[string]bool{}, Stubs: map[string]bool{}, UnwindFail: map[string]bool{}}
 			parts[w] = part
-			sv := solver
-			if w > 0 {
-				var err error
-				sv, err = StartSolverTO(kind, h.FeasTO)
-				if err != nil {
-					return
-				}
-				defer sv.Close()
+			var sv *Solver
+			if w == 0 {
+				sv = solver
 			}
+			defer func() {
+				if w > 0 && sv != nil {
+					sv.Close()
+				}
+			}()
 			for {
 				mu.Lock()
 				for len(pending) == 0 && active > 0 {
@@ -348,7 +349,18 @@ func runHarness(cfg *Config, ld *Loaded, h *Harness, known []*Finding) (res *Har
 				mu.Unlock()
 				part.Paths++
 				ctlPush := push
-				runPath(cfg, ld, h, fn, sv, part, known, prefix, ctlPush)
+				pathSlots <- struct{}{}
+				if sv == nil {
+					var err error
+					sv, err = StartSolverTO(kind, h.FeasTO)
+					if err != nil {
+						part.Errors = append(part.Errors, "cannot start solver: "+err.Error())
+					}
+				}
+				if sv != nil {
+					runPath(cfg, ld, h, fn, sv, part, known, prefix, ctlPush)
+				}
+				<-pathSlots
 				mu.Lock()
 				active--
 				stop := len(part.Errors) > 0
@@ -557,6 +569,8 @@ func matchKnown(known []*Finding, c *Candidate) *Finding {
 }
 
 // ---------------------------------------------------------------------------
+
+var pathSlots chan struct{}
 
 var printMu sync.Mutex
 
